@@ -65,6 +65,14 @@ def execute(c):
         c["ys"] = np.asarray(_lroo_kernel(all_bits(c["n"]))).astype("int64").tolist()
     elif op == "croo":
         da = _cube(c["x"], c["t"], dims=tuple(c.get("dims", ("time", "y", "x"))), dask=c.get("dask", False))
+        if c["tid"] % 2 == 0 and len(c["t"]) > 1:
+            # history of the same object: a first call under other time labels, relabelled in place afterwards
+            # (xarray keeps one accessor object per array; the result depends on the present labels only)
+            real = da["time"].values.copy()
+            da["time"] = real[::-1].copy()
+            da.hdc.algo.croo()
+            da["time"] = real
+            c["primed"] = True
         w = core.Watch(da.data) if not c.get("dask") else core.Watch()
         r = da.hdc.algo.croo()
         c["inmod"] = w.changed()
